@@ -225,7 +225,7 @@ Definition kf_code (fin : Z) (T : list block) (V : list (N * N * N)) (order : li
       end
   | FTip k =>
       match nth_error order k, nth_error obs k with
-      | Some i, Some (_, _, ec, _, _, _) =>
+      | Some i, Some (_, _, _, ta, _, _) =>
           let past := firstn k order in
           let r0 := ref_at fin T V past in
           let r1 := ref_step fin T V r0 i in
@@ -233,15 +233,17 @@ Definition kf_code (fin : Z) (T : list block) (V : list (N * N * N)) (order : li
           (* finding 1 again: the poisoned hash is the block, one of its ancestors, or a
              block the reference connects now *)
           if poisoned T V past (shash i :: ancestors (length T) T (shash i) ++ newly) then 1%N
-          (* finding 4: ProcessOrphans stopped at an unacceptable orphan waiting for one of
-             the blocks connected now; the answer carries that orphan's error *)
-          else if negb (N.eqb ec 0)
-                  && existsb (fun j => unacc T V j
-                                       && match find_hdr (shash j) T with
-                                          | Some b => memN (bpar b) newly
-                                          | None => false
-                                          end) past
-          then 4%N else 0%N
+          (* finding 2 through the orphan pool: an unacceptable block that arrived before its
+             parent is taken from the pool in this step (its parent is connected now), it is
+             high enough to start a reorganisation, and the tip is left on one of its proper
+             ancestors *)
+          else if existsb (fun j => unacc T V j
+                                    && match find_hdr (shash j) T with
+                                       | Some b => memN (bpar b) newly && (fin + 12 <=? bht b)
+                                                   && memN ta (ancestors (length T) T (shash j))
+                                       | None => false
+                                       end) past
+          then 2%N else 0%N
       | _, _ => 0%N
       end
   | _ => 0%N
